@@ -302,7 +302,93 @@ int_future!(ReadU32, u32);
 int_future!(ReadU64, u64);
 int_future!(ReadU128, u128);
 
+/// `AsyncReadExt::take`: an adaptor that reads at most `limit` bytes, then reports end of file.
+pub struct Take<R> {
+    inner: R,
+    limit: u64,
+}
+impl<R> Take<R> {
+    pub fn limit(&self) -> u64 {
+        self.limit
+    }
+    pub fn set_limit(&mut self, limit: u64) {
+        self.limit = limit;
+    }
+    pub fn get_ref(&self) -> &R {
+        &self.inner
+    }
+    pub fn get_mut(&mut self) -> &mut R {
+        &mut self.inner
+    }
+    pub fn into_inner(self) -> R {
+        self.inner
+    }
+}
+impl<R: AsyncRead + Unpin> AsyncRead for Take<R> {
+    fn poll_read(self: Pin<&mut Self>, cx: &mut Context<'_>, buf: &mut ReadBuf<'_>) -> Poll<io::Result<()>> {
+        let me = self.get_mut();
+        if me.limit == 0 {
+            return Poll::Ready(Ok(()));
+        }
+        let room = buf.remaining();
+        let want = if (room as u64) < me.limit { room } else { me.limit as usize };
+        let mut tmp = [0u8; 16];
+        let want = if want < 16 { want } else { 16 };
+        let mut rb = ReadBuf::new(&mut tmp[..want]);
+        match Pin::new(&mut me.inner).poll_read(cx, &mut rb) {
+            Poll::Pending => Poll::Pending,
+            Poll::Ready(Err(e)) => Poll::Ready(Err(e)),
+            Poll::Ready(Ok(())) => {
+                let n = rb.filled().len();
+                buf.put_slice(&tmp[..n]);
+                me.limit -= n as u64;
+                Poll::Ready(Ok(()))
+            }
+        }
+    }
+}
+/// Future of `read_to_end`: reads until end of file, appending to the vector; yields the
+/// number of bytes read.  End of file is NOT an error.
+pub struct ReadToEnd<'a, R: ?Sized> {
+    r: &'a mut R,
+    out: &'a mut Vec<u8>,
+    n: usize,
+}
+impl<R: AsyncRead + Unpin + ?Sized> Future for ReadToEnd<'_, R> {
+    type Output = io::Result<usize>;
+    fn poll(self: Pin<&mut Self>, cx: &mut Context<'_>) -> Poll<Self::Output> {
+        let me = self.get_mut();
+        loop {
+            let mut tmp = [0u8; 16];
+            let mut rb = ReadBuf::new(&mut tmp[..]);
+            match Pin::new(&mut *me.r).poll_read(cx, &mut rb) {
+                Poll::Pending => return Poll::Pending,
+                Poll::Ready(Err(e)) => return Poll::Ready(Err(e)),
+                Poll::Ready(Ok(())) => {}
+            }
+            let k = rb.filled().len();
+            if k == 0 {
+                return Poll::Ready(Ok(me.n));
+            }
+            me.out.extend_from_slice(&tmp[..k]);
+            me.n += k;
+        }
+    }
+}
+
 pub trait AsyncReadExt: AsyncRead {
+    fn take(self, limit: u64) -> Take<Self>
+    where
+        Self: Sized,
+    {
+        Take { inner: self, limit }
+    }
+    fn read_to_end<'a>(&'a mut self, buf: &'a mut Vec<u8>) -> ReadToEnd<'a, Self>
+    where
+        Self: Unpin,
+    {
+        ReadToEnd { r: self, out: buf, n: 0 }
+    }
     fn read<'a>(&'a mut self, buf: &'a mut [u8]) -> Read<'a, Self>
     where
         Self: Unpin,
